@@ -13,6 +13,21 @@ NOTE_R = ("Mode R = IEEE specials over exact reals (no rounding/overflow/signed 
           "with instance axioms. Trusted: z3, the shim's model of NumPy element semantics, the oracles in /verif/spec and the harness. ")
 
 CHECKS = {
+    "C16": dict(
+        text="Bounded symbolic verification: a rule text is a sequence of tokens whose identity (a word of a bounded vocabulary - keywords, "
+             "parentheses, the variable/term/hedge names of an engine, a number - or an unknown word) is a solver variable each; the real "
+             "Rule.parse, Function.infix_to_postfix, Antecedent.load, Consequent.load, Rule.load and RuleBlock.load_rules run on them, every "
+             "comparison of a token with a word forking the path explorer (feasibility decided by z3), so the paths partition all token "
+             "sequences of the stated shapes. Per path: the exception is a syntax/value/key error and never Type/Attribute/Index/"
+             "Recursion/RuntimeError; a failed load never leaves the rule loaded (a failed parse leaves it unchanged); on accepting "
+             "paths z3 decides 'path condition => the statement's grammar' (token automaton as an If-chain over the kinds) and the "
+             "accepted rule exports, re-imports to the same text and evaluates on symbolic inputs; FLL documents: the real FllImporter "
+             "dispatch on symbolic keys/values around a valid document.",
+        note="Token level: whitespace splitting and Function.format_infix's regex are stubbed as the identity on pre-tokenised text (glued tokens, "
+             "comments outside); vocabulary and lengths bounded (evidence). Each path's model is spelled out and re-run on the plain "
+             "library; disagreement is a harness error. Trusted: z3, the token model (symfl/tokens.py), the grammar automaton in "
+             "harness/c16.py (validated against its Python twin on every accepting path). One recorded known finding (misplaced connectives).",
+        ref="DESIGN.md §2 C16"),
     "C15": dict(
         text="Bounded symbolic verification: the C14 catalogue engines (plus negative-zero, infinite and NaN parameters) with every numeric "
              "parameter symbolic are exported by the real repr() and PythonExporter (plain/encapsulated, formatted or not) under each "
@@ -188,11 +203,7 @@ CHECKS = {
         ref="DESIGN.md §2 C04"),
 }
 
-NOT_APPLICABLE = {
-    "C16": "quantifies over arbitrary texts; the parsers are C-level str/regex/dict code that neither CrossHair (realises, ~4 chars) "
-           "nor the operator-overloading shim can execute symbolically; only concrete enumeration or a hand model would remain, "
-           "neither is a solver verdict on the real code (DESIGN.md §2 C16)",
-}
+NOT_APPLICABLE = {}
 
 
 def main():
